@@ -12,8 +12,73 @@ package cmdutils
 
 // "import replaces whatever was there ... reproduce the same pinset": every decoded record is
 // added as decoded (into a fresh pin), the first error stops the import
+//@ ghost var importOK int
 //@ func importState
 //@   property C14
+//@   counts importOK when err == nil
 //@   loop 1 (for)
 //@     invariant true
 //@   modifies pinset, heap(api.Pin)
+
+// ---- "import replaces whatever was there": the old state is cleaned before anything is imported, what is saved /
+// committed is the state the records were imported into, and a step that fails is reported ----
+//@ ghost var cleanOK int
+//@ ghost var snapOK int
+//@ func (raftsm *raftStateManager) Clean
+//@   opts trusted
+//@   counts cleanOK when err == nil
+//@   modifies nothing
+//@ func (crdtsm *crdtStateManager) Clean
+//@   opts trusted
+//@   counts cleanOK when err == nil
+//@   modifies nothing
+//@ func (raftsm *raftStateManager) GetStore
+//@   opts trusted
+//@   modifies nothing
+//@ func (crdtsm *crdtStateManager) GetStore
+//@   opts trusted
+//@   modifies nothing
+//@ func (raftsm *raftStateManager) GetOfflineState
+//@   opts trusted
+//@   modifies nothing
+//@ func (crdtsm *crdtStateManager) GetOfflineState
+//@   opts trusted
+//@   modifies nothing
+// (peer-address bookkeeping of the snapshot's configuration: not verified here)
+//@ extern ipfscluster.PeersFromMultiaddrs(addrs)
+//@   modifies nothing
+//@ extern pstoremgr.Manager.LoadPeerstore()
+//@   modifies nothing
+//@ extern pstoremgr.New(ctx, h, peerstorePath)
+//@   modifies nothing
+//@ extern raft.SnapshotSave(cfg, newState, pids)
+//@   counts snapOK when err == nil
+//@   modifies nothing
+
+//@ func (raftsm *raftStateManager) ImportState
+//@   property C14
+//@   at_call importState assert [old-state-cleaned-first] cleanOK == old(cleanOK) + 1
+//@   at_call raft.SnapshotSave assert [the-imported-state-is-saved] same(newState, st) && importOK == old(importOK) + 1
+//@   ensures [success-means-imported-and-saved] err == nil ==> cleanOK == old(cleanOK) + 1 && importOK == old(importOK) + 1 && snapOK == old(snapOK) + 1
+//@   modifies *
+
+//@ func (crdtsm *crdtStateManager) ImportState
+//@   property C14
+//@   at_call importState assert [old-state-cleaned-first] cleanOK == old(cleanOK) + 1
+//@   at_call state.BatchingState.Commit assert [the-imported-batch-is-committed] importOK == old(importOK) + 1
+//@   ensures [success-means-imported-and-committed] err == nil ==> cleanOK == old(cleanOK) + 1 && importOK == old(importOK) + 1 && commitOK == old(commitOK) + 1
+//@   modifies *
+
+// export: every pin the state lists is written, in one JSON document each; the first failure aborts with that error
+//@ ghost var encOK int
+//@ extern json.Encoder.Encode(v)
+//@   counts encOK when err == nil
+//@   modifies nothing
+//@ func exportState
+//@   property C14
+//@   at_call json.Encoder.Encode assert [writes-the-listed-pin] v == any(pin) && pin == pins[idx1]
+//@   ensures [every-listed-pin-exported] err == nil ==> encOK == old(encOK) + len(pins)
+//@   loop 1 (range pins)
+//@     invariant encOK == old(encOK) + idx1
+//@     on_break [no-pin-skipped] false
+//@   modifies encOK
